@@ -18,6 +18,9 @@ STANDARD = [
     ("$[?length(@.a) == 1]", "objarr"), ("$[?count(@.*) > 1]", "objarr"), ("$[?match(@.a, 'a.*')]", "objarr"),
     ("$[?value(@..a) == 1]", "nest2"), ("$[?!@.b && @.a != $[0].a]", "objarr"), ("$.a[?@ == $.b.a]", "nest1"),
     ("$[?@[?@ == 1]]", "nest3"), ("$[*][?@]", "nest3"), ("$.b[?@ == 1]", "nest1"),
+    ("$.items[?@.xs[?@.a == $.k]]", "nestk"), ("$.items[?@.xs[?@.a == $.k && $.items[0].k == @.a]]", "nestk"), ("$..[?@.xs[?@.a == $.k]]", "nestk"),
+    ("$[?@ > 0]", "quotekeys"), ("$[?@]", "quotekeys"), ("$..[?@ == 1]", "quotekeys"), ("$.*", "quotekeys"), ("$..*", "quotekeys"),
+    ("$[-1]", "arr"), ("$[-3]", "arr"), ("$[0,-9,1]", "arr"), ("$[?@[-2] == 1]", "nest3"), ("$..[-2]", "nest3"), ("$[-1:]", "arr"),
     ("$[::0]", "arr"), ("$..[1:3:0]", "nest3"), ("$.a[0:2:0, 0]", "nest1"), ("$[?@[::0]]", "nest3"), ("$[0::-1]", "arr"),
 ]
 EXTENDED = [
